@@ -6,8 +6,9 @@ from .core import Opaque, Engine, OutOfSubset, ContractError
 from engine.common import REPO, Obligation as EvObl
 
 
-def load_funcdef(module, qualname):
-    path = os.path.join(REPO, *module.split('.')) + '.py'
+def load_funcdef(module, qualname, source=None):
+    # source: corollary harnesses (lemmas over proved contracts) live in /verif, not in the repository
+    path = source or (os.path.join(REPO, *module.split('.')) + '.py')
     src = open(path).read()
     tree = ast.parse(src)
     body, node = tree.body, None
@@ -94,15 +95,19 @@ def callee_binarize(eng, st, args, kw, node):
     return npspec.materialise(eng, st, core.Mat(m.shape, lambda x, y: z3.If(core.to_z3(m.fn(x, y), core.REAL) != 0, z3.RealVal(1), z3.RealVal(0)), core.REAL))
 
 
-def callee_from_clauses(name, params, requires, ensures, results, ghosts=None):
+def callee_from_clauses(name, params, requires, ensures, results, ghosts=None, rebinds=None):
     """Callee stub generated from contract clauses (the same clause texts that the callee's own contract proves): at the call site the
     parameters are bound to the actual arguments, every `requires` clause becomes an obligation of the caller, the results are fresh
     values of the declared kinds and exactly the `ensures` clauses are assumed about them (`result(k)` refers to them).
-    results: list of ('mat'|'bmat'|'int', shape-expression strings evaluated with the parameters bound); ghosts: name -> expression."""
+    results: list of ('mat'|'bmat'|'int', shape-expression strings evaluated with the parameters bound); ghosts: name -> expression.
+    rebinds: name -> ('mat', dims...): names that the callee re-binds before it returns (e.g. `G = binarize(G, copy=True)`): in the ensures
+    clauses they denote the callee's local value at return, modelled as a fresh matrix about which only the ensures clauses speak, while
+    arg('G') denotes the actual argument."""
     def stub(eng, st, args, kw, node):
         if kw or len(args) != len(params):
             raise OutOfSubset('call of %s with keywords / wrong arity' % name)
-        saved_env = {k: st.env[k] for k in params if k in st.env}
+        allnames = list(params) + [k for k in (rebinds or {}) if k not in params]
+        saved_env = {k: st.env[k] for k in allnames if k in st.env}
         missing_env = [k for k in params if k not in st.env]
         saved_ghost = dict(st.ghost)
         try:
@@ -112,6 +117,7 @@ def callee_from_clauses(name, params, requires, ensures, results, ghosts=None):
                 st.env[k] = a
             for g, src in (ghosts or {}).items():
                 st.ghost[g] = eng.ev_str(src, st)
+            st.ghost['_stub_args'] = {k: st.env[k] for k in params}
             for cname, src in requires:
                 eng.oblige(st, 'call[%s]/requires/%s' % (name, cname), core.truth(eng.ev_str(src, st)))
             res = []
@@ -126,14 +132,18 @@ def callee_from_clauses(name, params, requires, ensures, results, ghosts=None):
                 else:
                     raise ContractError('result kind %s' % kind)
             st.ghost['_result'] = core.TupleV(res) if len(res) != 1 else res[0]
+            for nm, (kind, *dims) in (rebinds or {}).items():
+                if kind != 'mat':
+                    raise ContractError('rebind kind %s' % kind)
+                st.env[nm] = core.alloc(st, 2, core.fresh('loc_%s_%s' % (name, nm), core.A2R), tuple(eng.ev_str(d, st) for d in dims), core.REAL)
             for cname, src in ensures:
                 st.pc.append(core.truth(eng.ev_str(src, st)))
             return core.TupleV(res) if len(res) != 1 else res[0]
         finally:
-            for k in params:
+            for k in allnames:
                 st.env.pop(k, None)
             st.env.update(saved_env)
-            keep = {k: v for k, v in st.ghost.items() if k not in saved_ghost and k not in (ghosts or {}) and k != '_result'}
+            keep = {k: v for k, v in st.ghost.items() if k not in saved_ghost and k not in (ghosts or {}) and k not in ('_result', '_stub_args')}
             st.ghost = dict(saved_ghost)
             st.ghost.update(keep)
     return stub
@@ -143,7 +153,7 @@ DEFAULT_CALLEES = {'binarize': callee_binarize, 'teachers_round': callee_teacher
 
 
 def generate(contract, callees=None):
-    fd, path = load_funcdef(contract.module, contract.name)
+    fd, path = load_funcdef(contract.module, contract.name, getattr(contract, 'source', None))
     cal = dict(DEFAULT_CALLEES)
     cal.update(callees or {})
     cal.update(getattr(contract, 'callees', None) or {})
